@@ -176,6 +176,8 @@ func (r *Writer) main() {
 }
 
 func (r *Writer) processAvailable(forceCut bool) uint {
+	verifTick(forceCut)
+
 	// First drain the queue of all of the operations that are ready to form a batch
 	pending, err := r.drain()
 	if err != nil {
